@@ -69,6 +69,20 @@ def compute_ctc3(mm):
     return compute_ctc(mm, fl_channel=3)
 
 
+def get_crosstalk_identifier(mm):
+    """Identify all crosstalk matrix elements defined in the configuration
+
+    :func:`compute_ctc` uses every crosstalk matrix element that is
+    defined in the configuration, not only those required by the
+    ancillary feature instance. All of them must be taken into account
+    when identifying cached data.
+    """
+    calccfg = mm.config["calculation"]
+    elements = [f"{key}={calccfg[key]}" for key in sorted(calccfg.keys())
+                if key.startswith("crosstalk fl")]
+    return "crosstalk:" + ";".join(elements)
+
+
 def get_method(fl_channel):
     if fl_channel == 1:
         return compute_ctc1
@@ -109,6 +123,7 @@ def register():
                          method=get_method(flch),
                          req_features=opts_all[0],
                          req_config=[["calculation", opts_all[1]]],
+                         req_func=get_crosstalk_identifier,
                          priority=1)
 
     for flch in [1, 2]:
@@ -116,6 +131,7 @@ def register():
                          method=get_method(flch),
                          req_features=opts_12[0],
                          req_config=[["calculation", opts_12[1]]],
+                         req_func=get_crosstalk_identifier,
                          priority=0)
 
     for flch in [1, 3]:
@@ -123,6 +139,7 @@ def register():
                          method=get_method(flch),
                          req_features=opts_13[0],
                          req_config=[["calculation", opts_13[1]]],
+                         req_func=get_crosstalk_identifier,
                          priority=0)
 
     for flch in [2, 3]:
@@ -130,4 +147,5 @@ def register():
                          method=get_method(flch),
                          req_features=opts_23[0],
                          req_config=[["calculation", opts_23[1]]],
+                         req_func=get_crosstalk_identifier,
                          priority=0)
